@@ -298,8 +298,8 @@ func C08() *runner.Property {
 			"memory bound asserted: bytes allocated during decoding <= 64 x (compressed + decompressed size) + 32 MiB (gzip expansion itself is proportional to the decompressed size, not to the blob)",
 			"termination is decided by a logical bound (Next() calls <= decompressed bytes + 1); the wall-clock watchdog only catches loops outside Next()",
 		},
-		BatchSize:       4,
-		CaseTimeout:     3600e9,
+		BatchSize:   4,
+		CaseTimeout: 3600e9,
 		Cases: func(tier string, seed int64) []runner.Case {
 			r := rng.New(uint64(seed) ^ 0xC08)
 			per := map[string]int{"g1-raw": 4, "g1-gz": 8, "g2-trunc": 8, "g2-flip-pb": 12, "g2-flip-gz": 4, "g3-struct": 24, "g3-tiny": 8, "g4-gzip": 2}
